@@ -24,7 +24,8 @@ var (
 			"arbitrary byte strings, with and without --rewrite-websocket-host, foreign Host headers on the open request and backend paths that answer the handshake with a redirect, against websockets.Proxy in-process; websocket.DefaultDialer.NetDialContext is replaced by a recorder that "+
 			"refuses every address other than the backend's; oracle: every recorded dial address equals the configured backend host, and when "+
 			"the handshake reaches the backend its path and query are those of the supplied URL; non-trivial = body parses as a URL naming a "+
-			"host other than the backend or having an opaque part; distinct = SHA-256 of the body")
+			"host other than the backend or having an opaque part; distinct = SHA-256 of the body"+
+			" Later additions: with --rewrite-websocket-host the handshake must carry the host the client addressed, never the host named in the body.")
 	recP = vh.NewRecorder("C13", "pass-through",
 		"requests for clean paths outside the shim prefix (outside, sharing a string prefix with it such as /shimx, nested such as "+
 			"/a/shim/open) with generated methods, queries, headers and bodies; oracle: the wrapped handler receives identical method, URL, "+
